@@ -184,6 +184,9 @@ def _text_probe(chk):
             if a is not None:
                 chk.count()
                 stats["cmd_TXT"] += 1
+                chk.nontrivial((case.name, c.split()[1], "TXT", a[:12]))
+        if cmds:
+            chk.sample({"case": case.name, "build": "text probe", "command": cmds[0], "answer": (answers[0] or "crash")[:200]})
     chk.extra["text_probe"] = dict(stats, cases=[c.name for c in cases])
 
 
